@@ -365,6 +365,11 @@ def battery(exe):
     many = {("f%d.lua" % i): "print(zzz_undefined_%d)\n" % i for i in range(11)}
     rc, rep = run_check_bin(exe, many, None, [])
     res.append(("every_file_reported", "each of 11 files with one error appears in the report", count(rep) is not None and count(rep) < 11, {"rc": rc, "n": count(rep)}))
+    # the number of files must not matter (batching / chunking of the per-file tasks)
+    for n in (1, 2, 3, 16, 17, 19, 31, 33):
+        many = {("g%02d.lua" % i): "print(zzz_undefined_%d)\n" % i for i in range(n)}
+        rc, rep = run_check_bin(exe, many, None, [])
+        res.append(("every_file_reported_%d" % n, "each of %d files with one error appears in the report" % n, count(rep) is None or count(rep) != n or rc == 0, {"rc": rc, "n": count(rep)}))
     return res
 
 
